@@ -395,7 +395,9 @@ class Inotify:
                     # IN_MOVED_FROM events should be marked IN_CREATE
                     # instead relative to this directory.
                     try:
-                        self._add_watch(src_path, self._event_mask)
+                        # IN_ONLYDIR: the name may have been re-used for a regular file in the meantime,
+                        # which must not be taken for the directory this event announced.
+                        self._add_watch(src_path, self._event_mask | InotifyConstants.IN_ONLYDIR)
                     except OSError:
                         continue
 
